@@ -298,14 +298,39 @@ def r10_3(ctx, rc):
             if isinstance(a, ast.Starred) and isinstance(a.value, ast.Name)]
     key = 'callback receives (sub-builder, normalised filename, ...)'
     ok = False
-    if star and star[0] in b:
-        a = b[star[0]]
-        lst = a.left if isinstance(a, ast.BinOp) else a
-        if isinstance(lst, (ast.List, ast.Tuple)) and len(lst.elts) >= 2:
-            cn = ctx.H.node_of(F, c)[0]
-            e0, e1 = lst.elts[0], lst.elts[1]
-            ok = isinstance(e0, ast.Name) and e0.id == F.self_name and \
-                _own_filename(ctx.H.subst(e1, F, cn))
+    # the effective positional arguments of the user call: its own plain
+    # arguments, and the elements of list displays bound to the parameters
+    # it star-expands (``[self, filename] + copies`` at the call site)
+    cnF = ctx.H.node_of(F, c)[0]
+    cnN = ctx.H.node_of(nested, ucall)
+    eff = []
+
+    def expand(v):
+        if isinstance(v, ast.BinOp) and isinstance(v.op, ast.Add):
+            expand(v.left)
+            expand(v.right)
+        elif isinstance(v, (ast.List, ast.Tuple)):
+            for e in v.elts:
+                if isinstance(e, ast.Starred):
+                    eff.append(None)
+                else:
+                    eff.append((e, F, cnF))
+        else:
+            eff.append(None)
+    for a in ucall.args:
+        if isinstance(a, ast.Starred):
+            if isinstance(a.value, ast.Name) and isinstance(
+                    b.get(a.value.id), ast.AST):
+                expand(b[a.value.id])
+            else:
+                eff.append(None)
+        else:
+            eff.append((a, nested, cnN[0] if cnN else None))
+    if len(eff) >= 2 and eff[0] is not None and eff[1] is not None:
+        e0, f0, _c0 = eff[0]
+        e1, f1, c1 = eff[1]
+        ok = isinstance(e0, ast.Name) and e0.id == f0.self_name and \
+            _own_filename(ctx.H.subst(e1, f1, c1) if c1 is not None else e1)
     if ok:
         rc.ok({'args': '[self, operation.filename] + copies'}, key=key)
     else:
